@@ -253,7 +253,7 @@ def main(chk):
                     mism += 1; chk.note('validation mismatch cm=%d %s p=%r: %r' % (cm, sc.name, p, (r.status, getattr(r, 'error', None))))
         chk.functions |= sc_.functions_called
     chk.validation = {'programs': 3, 'inputs': nval, 'mismatches': mism}
-    nsplit = 2 if quick else 3
+    nsplit = 2       # 3 per axis (27 sub-boxes, 591 explorations) did not finish within an hour on 16 cores; the thorough tier adds scenarios, models and boxes instead
     jobs = []
     for cm in (0, 1, 2):
         for si, sc in enumerate(SC):
@@ -271,7 +271,7 @@ def main(chk):
     # a cell whose face list has unused slots (after an edge collapse): positions in the model's face list differ from slot numbers
     for cm in ((1,) if quick else (0, 1, 2)):
         # (expensive per path: one small box next to an upper face of B in the quick tier)
-        for (lo, hi) in ([((0.70, 0.60, 0.80), (0.78, 0.68, 0.88))] if quick else split_box((0.66, 0.56, 0.76), (0.82, 0.72, 0.92), 2)):
+        for (lo, hi) in ([((0.70, 0.60, 0.80), (0.78, 0.68, 0.88))] if quick else [((0.70, 0.60, 0.80), (0.78, 0.68, 0.88)), ((0.66, 0.56, 0.76), (0.74, 0.64, 0.84))]):
             jobs.append((cm, -1, lo, hi, 1, 0, 1))
     chk.log('%d explorations' % len(jobs))
     def sc_of(j): return SCGAP if j[1] == -1 else SC[j[1]]
